@@ -258,6 +258,7 @@ Print Assumptions C16_cleanjoin2_confined.
 Theorem C16_cleanjoin2_agrees :
   forall (root dest : string),
   has_dotdot (path_clean root) = false -> clean_comps (path_clean root) <> [] ->
+  has_nul (replace_char bslash slash dest) = false ->
   match clean_join root dest, clean_join2 root dest with
   | inl CJColon, inl CJ2Colon | inl CJDotDot, inl CJ2DotDot | inl CJAbs, inl CJ2Abs => True
   | inr a, inr b => a = b
